@@ -29,7 +29,9 @@ META = {
                   "the peer available at once); a cool-down runs from the moment the queue entry is created. Round-robin "
                   "order is not demanded: a different order is conformance drift (exit 2), not a violation. 'Blacklisted' = "
                   "blocked in the connection gater, only with EnableBlackListing. Time is a mock clock in 1 s ticks; the "
-                  "manager's pool age is set through a verif accessor. Small-scope: 2-3 threads, 2-3 peers, 2 hashes.",
+                  "manager's pool age is set through a verif accessor. Lock discipline (a marked read of a pool's list "
+                  "outside that pool's mutex) is reported as a violation because every guarantee of the property is "
+                  "established under that mutex. Small-scope: 2-3 threads, 2-3 peers, 2 hashes.",
     "design_ref": "DESIGN.md §5 C17, §6 #14 #15",
 }
 
@@ -321,15 +323,16 @@ def run(ctx):
     if R["origcount"]:
         plan["witness"] = [R["origcount"]]
 
+    wake_first = lambda a: a.get("act") in ("next_wake", "next_cancel", "releaseExpired")   # rarer edges first
     for key, cfg, name, npaths in (("atomic", atomic_cfg, "pool", 300 if quick else 8000),
-                                   ("atomicwake", "peers/PoolAtomicWake.cfg", "pool2", 200 if quick else 3000)):
+                                   ("atomicwake", "peers/PoolAtomicWake.cfg", "pool2", 1200 if quick else 3000)):
         r = R[key]
         g = Graph(r.printed.get("EDGE", []))
         if g.root is None:
             ctx.inconclusive("atomic state graph %s: no unique root (%d candidates, %d edges)" % (cfg, len(g.roots), g.n_edges))
             continue
         c = cfg_consts(cfg)
-        paths, covered = g.paths(rng, npaths)
+        paths, covered = g.paths(rng, npaths, prefer=wake_first)
         plan[name] = {"ttl": c["TTL"], "cleanup": c["CleanupThreshold"], "slots": c["slots"], "paths": paths}
         ctx.cover(pool_graph_edges=g.n_edges, pool_graph_edges_replayed=covered, pool_graph_nodes=len(g.nodes))
         ctx.log("atomic graph %s: %d nodes, %d edges; %d paths cover %d edges" % (cfg, len(g.nodes), g.n_edges, len(paths), covered))
